@@ -341,6 +341,85 @@ def subslice_pointers(lo, hi, cx, body):
     return None
 
 
+_ENUM_TYS = {"u8": range(256), "i8": range(-128, 128), "bool": (False, True)}
+
+
+def unreachable_by_enumeration(frames, cx, body):
+    """An assertion whose path conditions are pure functions of the function's small-typed parameters (u8 / i8 / bool, never
+    assigned): the conditions are evaluated for EVERY value of those parameters (abstract evaluator, callees of the crate evaluated
+    as written); if no value satisfies the conditions that could be evaluated, no value satisfies all of them and the panic cannot
+    be reached.  Conditions that read anything else (fields, other locals) are left out, which only weakens the conjunction."""
+    import abseval
+    import itertools
+    facts, crate = getattr(cx, "facts", None), getattr(cx, "crate", None)
+    if facts is None or crate is None:
+        return None
+    conds = [(hir.simp(f["expr"]), f["val"]) for f in frames if f.get("kind") == "if"]
+    if not conds or any(f.get("kind") in ("closure",) for f in frames):
+        return None
+    params = {}
+    for p_ in body.get("params", []):
+        ty = str(p_.get("ty", ""))
+        if p_.get("k") == "pbind" and ty in _ENUM_TYS and (p_["name"], p_.get("id")) not in cx.assigned:
+            params[(p_["name"], p_.get("id"))] = ty
+    used = {}
+    for c, _v in conds[-1:]:
+        for n in hir.walk(c):
+            if n.get("k") == "local":
+                key = (n["name"], n.get("id"))
+                if key not in params:
+                    return None           # the assertion itself reads something that is not an enumerable parameter
+                used[key] = params[key]
+    if not used:
+        return None
+    size = 1
+    for ty in used.values():
+        size *= len(_ENUM_TYS[ty])
+    if size > 65536:
+        return None
+
+    def by_discriminant(a_):
+        v, ty = a_[0], str(a_[-1])
+        its = [i_ for i_ in facts.items(ty.split("::")[0]) if i_["dk"] == "Enum" and i_["path"] == ty] if "::" in ty else []
+        if v[0] != "int" or len(its) != 1 or any(x["fields"] for x in its[0]["variants"]):
+            raise Unrecognised(f"transmute of {v} to {ty}")
+        vs = [x for x in its[0]["variants"] if x["discr"] == v[1]]
+        if len(vs) != 1:
+            raise Unrecognised(f"transmute of {v} to {ty}: no such discriminant")
+        return ("enum", ty + "::" + vs[0]["name"])
+    ev = abseval.Evaluator(facts, crate, {"transmute": by_discriminant})
+    ev.loop_bound = 400
+    keys = sorted(used)
+    skipped = set()
+    for combo in itertools.product(*[_ENUM_TYS[used[k]] for k in keys]):
+        env = abseval.Env()
+        for (name, _id), v in zip(keys, combo):
+            env[name] = ("bool", v) if isinstance(v, bool) else ("int", v)
+        contradicted = False
+        for ci, (c, want) in enumerate(conds):
+            if ci in skipped:
+                continue
+            try:
+                r = ev.ev(c, abseval.Env(env))
+            except (Unrecognised, abseval.NeedChoice, abseval.Return, abseval.Break, abseval.Continue, KeyError):
+                if ci == len(conds) - 1:
+                    return None
+                skipped.add(ci)
+                continue
+            if r[0] != "bool":
+                if ci == len(conds) - 1:
+                    return None
+                skipped.add(ci)
+                continue
+            if r[1] != want:
+                contradicted = True
+                break
+        if not contradicted:
+            return None
+    return (f"for every one of the {size} values of ({', '.join(k[0] for k in keys)}) one of the {len(conds) - len(skipped)} evaluable path "
+            f"conditions of the assertion is false: it cannot fail")
+
+
 def discharge(site, cx, body):
     """→ (rule name, explanation) or None"""
     n = site["node"]
@@ -350,6 +429,9 @@ def discharge(site, cx, body):
     if why:
         return "D-unreachable", why
     if kind in ("call:panic_fmt", "call:panic"):
+        w_ = unreachable_by_enumeration(frames, cx, body)
+        if w_:
+            return "D-finite-domain", w_
         # a debug_assert!(base.as_ptr() <= piece.as_ptr()) between a slice and a piece of it
         for f in frames:
             if f.get("kind") == "if":
